@@ -381,8 +381,15 @@ CLEANUP:
 	/* free the last allocated basis, and if we wanted to save it, do so */
 	if (basis)
 	{
-		if (writebasis)
-			rval = mpq_QSwrite_basis (p_mpq, 0, writebasis);
+		/* a basis exists only after an OPTIMAL solve: an infeasible or unbounded LP is
+		 * not an error of the program, and an earlier error must not be overwritten */
+		if (writebasis && !rval)
+		{
+			if (status == QS_LP_OPTIMAL)
+				rval = mpq_QSwrite_basis (p_mpq, 0, writebasis);
+			else
+				fprintf (stderr, "No optimal basis to write to %s\n", writebasis);
+		}
 	}
 	mpq_QSfree_basis (basis);
 	mpq_QSfree_prob (p_mpq);
